@@ -168,20 +168,40 @@ def run_A(scn: Dict[str, Any], on, plugins=()) -> Dict[str, Any]:
                       simulator_class=classes["TapSimulator"])
         for c in classes.values():
             runner.class_register(c)
+        if scn.get("register_clash"):
+            from pams.agents.fcn_agent import FCNAgent
+            from pams.market import Market
+            base = {"Market": Market, "FCNAgent": FCNAgent}[scn["register_clash"]]
+            runner.class_register(type(scn["register_clash"], (base,), {}))
         res["phase"] = "setup"
+        mon.ext["cfg_pristine"] = pristine
         runner._setup()
     except Exception as e:
         res["error"] = classify_exception(e)
         if res["error"]["in_harness"]:
             raise
+        exp = scn.get("expect_setup_error")
+        if exp is not None:
+            if res["error"]["type"] in exp["types"]:
+                res["error"]["expected"] = True
+                mon.probe("hostile_config_rejected_" + exp["kind"])
+            else:
+                mon.viol("C18", "hostile_config_wrong_error", {"kind": exp["kind"], "got": res["error"]["type"],
+                                                              "msg": res["error"]["msg"], "want": exp["types"]})
+                res["error"]["expected"] = True
         for p in mon.plugins:
             p.setup_failed(mon, res["error"])
         return _finish_result(res, mon, ctx)
+    if scn.get("expect_setup_error") is not None:
+        mon.viol("C18", "hostile_config_accepted", {"kind": scn["expect_setup_error"]["kind"]})
     res["phase"] = "run"
     mon.ext["runner"] = runner
     mon.ext["cfg"] = cfg
     mon.ext["probe_specs"] = scn.get("probes") or {}
     mon.attach(runner.simulator, cfg["simulation"]["sessions"])
+    if scn.get("setup_only"):
+        res["completed"] = True
+        return _finish_result(res, mon, ctx)
     try:
         runner._run()
         res["completed"] = True
